@@ -5,6 +5,7 @@ from __future__ import annotations
 import json
 import os
 import re
+import time
 from collections import Counter
 from typing import Any, Optional
 
@@ -316,7 +317,13 @@ def run_one(ctx: Any, seed: int, tier: str, replay: Optional[dict] = None) -> di
     else:
         inputs, fillers = gen_inputs(rng.fork("inputs"))
         sweep = gen_sweep(rng.fork("sweep"), 6 if tier == "quick" else 8)
-        history = gen_history(rng.fork("history"), inputs, fillers)
+        if rng.fork("mode").chance(0.4):
+            # a sweep-only run: no history, no fresh references - just many (half of them mutated) fixtures
+            # parsed with defaults and with both optimisations off in one process. Forks are what is
+            # expensive here, so this is the cheapest way to many optimised-vs-unoptimised comparisons.
+            inputs, fillers = [], []
+            sweep = gen_sweep(rng.fork("sweep-only"), 24)
+        history = gen_history(rng.fork("history"), inputs, fillers) if inputs else []
         pool = ctx.hashseeds(6)
         hr = rng.fork("hashseed")
         hs_h = hr.choice(pool)
@@ -373,7 +380,12 @@ def run_one(ctx: Any, seed: int, tier: str, replay: Optional[dict] = None) -> di
                 nontrivial.append("%s|%s|alloff|fresh" % (tdig, inp["dialect"]))
         # sweep: fixtures drawn file-uniformly over ALL dialects (half of them token-mutated), each parsed with defaults and
         # with both optimisations off in the reference process (no fork per input): optimised == unoptimised
+        t_sweep = time.time()
         for j, sw in enumerate(sweep):
+            if time.time() - t_sweep > 200:
+                # (wall-clock guard: counted as a timeout, which makes the run UNSTABLE = not compared)
+                probes["timeouts"] += 1
+                break
             if r1node is None:
                 r1node = zh.node({"name": "r1", "root": root, "cwd": "proj", "seed": seed + 100, "knobs": {}})
             a = r1node.call("parse", text=sw["text"], dialect=sw["dialect"], templater="raw")
@@ -401,7 +413,8 @@ def run_one(ctx: Any, seed: int, tier: str, replay: Optional[dict] = None) -> di
             r1node.close()
             r1node = None
         # history
-        node = zh.node({"name": "h", "root": root, "cwd": "proj", "seed": node_seed, "knobs": {}})
+        if history:
+            node = zh.node({"name": "h", "root": root, "cwd": "proj", "seed": node_seed, "knobs": {}})
         prefix: list = []
         parsed_before = 0
         for opi, op in enumerate(history):
